@@ -15,6 +15,7 @@ import (
 	"github.com/Trendyol/go-dcp/helpers"
 	"github.com/Trendyol/go-dcp/membership"
 	"github.com/Trendyol/go-dcp/servicediscovery"
+	"github.com/Trendyol/go-dcp/stream"
 	"github.com/asaskevich/EventBus"
 
 	"verif/harness/cbsim"
@@ -29,8 +30,11 @@ type c10Params struct {
 	Actions   []c10Action   `json:"actions,omitempty"`   // couchbase type: join / leave sequences separated by quiescent periods
 	Hold      string        `json:"hold,omitempty"`      // "" | "replace" (hold a survivor's monitor round across a death+join) | "cas" (delay one survivor's index rewrite)
 	Followers []c10Follower `json:"followers,omitempty"` // leader-assigned
-	Static    bool          `json:"static,omitempty"`
-	Dynamic   [][2]int      `json:"dynamic,omitempty"`
+	// EarlyRegister: the followers that join at second 0 register (rpc server is listening from the start) BEFORE the election
+	// callback makes this instance the leader
+	EarlyRegister bool     `json:"early_register,omitempty"`
+	Static        bool     `json:"static,omitempty"`
+	Dynamic       [][2]int `json:"dynamic,omitempty"`
 	// DynamicWindow: the first numbering is published exactly while GetInfo() is between its nil check and its
 	// channel receive (the point where it logs "waiting first request")
 	DynamicWindow     [2]int `json:"dynamic_window,omitempty"`
@@ -260,6 +264,8 @@ func c10RunCouchbase(sc drv.Scenario, p *c10Params) drv.Result {
 				return drv.Result{Verdict: drv.Inconclusive, Detail: err.Error()}
 			}
 			time.Sleep(8 * time.Millisecond) // join times come from the library's clock: keep the order unambiguous
+		case "idle":
+			time.Sleep(2700 * time.Millisecond) // expirySeconds is 2
 		case "leave":
 			leave(a.I)
 		case "replace":
@@ -424,13 +430,30 @@ func c10RunLeader(sc drv.Scenario, p *c10Params) drv.Result {
 		mu.Unlock()
 	})
 	sd := servicediscovery.NewServiceDiscovery(cfg, bus)
-	sd.BeLeader()
+	start := time.Now()
+	fol := map[string]*fakeFollower{}
+	added := map[string]bool{}
+	if p.EarlyRegister {
+		for _, f := range p.Followers {
+			if f.JoinAt == 0 {
+				ff := &fakeFollower{name: f.Name, start: start, failFrom: f.PingFailFrom, rebalErr: f.RebalErrors}
+				fol[f.Name] = ff
+				sd.Add(servicediscovery.NewService(ff, f.Name, time.Now().UnixNano()))
+				added[f.Name] = true
+			}
+		}
+		time.Sleep(20 * time.Millisecond)
+	}
+	// the library's own election callback (stream.NewLeaderElection(...).OnBecomeLeader), as the elector invokes it
+	if h, ok := stream.NewLeaderElection(cfg, sd, bus).(interface{ OnBecomeLeader() }); ok {
+		h.OnBecomeLeader()
+	} else {
+		sd.BeLeader()
+	}
 	sd.StartHeartbeat()
 	sd.StartMonitor()
 	defer sd.StopMonitor()
 	defer sd.StopHeartbeat()
-	start := time.Now()
-	fol := map[string]*fakeFollower{}
 	maxT := 0
 	for _, f := range p.Followers {
 		if f.JoinAt > maxT {
@@ -445,7 +468,6 @@ func c10RunLeader(sc drv.Scenario, p *c10Params) drv.Result {
 			maxT = f.RestartAt
 		}
 	}
-	added := map[string]bool{}
 	restarted := map[string]bool{}
 	total := maxT + 23 // two further heartbeat + monitor rounds (hard-coded 5 s) after the last change, plus retries
 	for time.Since(start) < time.Duration(total)*time.Second {
@@ -778,6 +800,11 @@ func init() {
 				next := k
 				switch i % 3 {
 				case 0: // deaths and later joins
+					if i%6 == 0 {
+						// the group stays unchanged for longer than the instance documents live (expirySeconds) before the next
+						// member dies: what the group shares must still be there then
+						p.Actions = append(p.Actions, c10Action{Op: "idle"})
+					}
 					for r := 0; r < 1+rng.Intn(2); r++ {
 						if len(alive) > 1 {
 							p.Actions = append(p.Actions, c10Action{Op: "leave", I: alive[0]})
@@ -829,6 +856,7 @@ func init() {
 						}
 					}
 				}
+				p.EarlyRegister = i%2 == 1
 				if i%3 == 2 {
 					// a late joiner whose first assignment push fails: the numbering must still reach it
 					p.Followers = append(p.Followers, c10Follower{Name: "pod-late", JoinAt: 12, RebalErrors: 1})
